@@ -160,7 +160,9 @@ func parseV1PortNumber(portStr string) (uint16, error) {
 func parseV1IPAddress(protocol AddressFamilyAndProtocol, addrStr string) (addr net.IP, err error) {
 	addr = net.ParseIP(addrStr)
 	tryV4 := addr.To4()
-	if (protocol == TCPv4 && tryV4 == nil) || (protocol == TCPv6 && (addr == nil || tryV4 != nil)) {
+	// TCP6 accepts any IPv6 text, including IPv4-mapped addresses such as ::ffff:192.0.2.1
+	// (sent by proxies listening on dual-stack sockets); plain dotted IPv4 text is refused.
+	if (protocol == TCPv4 && tryV4 == nil) || (protocol == TCPv6 && (addr == nil || !strings.Contains(addrStr, ":"))) {
 		err = ErrInvalidAddress
 	}
 	return
